@@ -461,6 +461,78 @@ fn rule_table(role: Role) {
     kani::cover!(got.is_err());
 }
 
+/// Buffered variant on the same inputs, cut at an arbitrary point: a proper prefix of the input is
+/// need-more-data (or, when the cut falls after a complete leading unknown frame + a complete
+/// frame, that frame) and NEVER moves the reader's offset unless a frame is returned; the complete
+/// input gives the one-shot verdict with offset == consumption.
+fn rule_table_buffered(role: Role) {
+    let mut buf = [0u8; 24];
+    let (len, kind, session, plen, start) = one_frame_input(&mut buf);
+    let done: bool = kani::any();
+    let hk_sel: u8 = kani::any();
+    let hk_id: crate::varint::VarInt = kani::any();
+    let cut: usize = kani::any();
+    kani::assume(cut <= len);
+    let mut br = BufferReader::new(&buf[..cut]);
+    let got = match role {
+        Role::BiRemote => {
+            let mut s = biremote::StreamBiRemoteQuic::accept_bi().upgrade();
+            if done {
+                s.stage.set_first_frame();
+            }
+            s.read_frame_from_buffer(&mut br)
+        }
+        Role::BiLocal => {
+            let mut s = bilocal::StreamBiLocalQuic::open_bi().upgrade();
+            if done {
+                s.stage.set_first_frame();
+            }
+            s.read_frame_from_buffer(&mut br)
+        }
+        Role::UniRemoteControl => any_control_like_stream(hk_sel, hk_id).read_frame_from_buffer(&mut br),
+        Role::Session => any_session_stream().read_frame_from_buffer(&mut br),
+    };
+    let off = br.offset();
+    if cut < len {
+        // incomplete: need more data, nothing consumed (the leading unknown frame, if any, is
+        // re-skipped on the next attempt)
+        assert!(matches!(got, Ok(None)));
+        assert!(off == 0);
+    } else {
+        match (rule(role, kind, done), &got) {
+            (Verdict::Accept, Ok(Some(f))) => {
+                assert!(frame_kind_code(&f.kind()) == kind);
+                assert!(f.session_id().map(|s| s.into_u64()) == session);
+                assert!(f.payload().len() == plen);
+                assert!(off == len);
+            }
+            (Verdict::Reject(code), Err(e)) => {
+                assert!(e.to_code().into_inner() == code);
+                assert!(off == 0);
+            }
+            _ => panic!("buffered read_frame: accept/reject differs from the specification"),
+        }
+    }
+    let _ = start;
+    kani::cover!(cut < len && cut > 2);
+    kani::cover!(cut == len && got.is_ok());
+    kani::cover!(cut == len && got.is_err());
+}
+
+macro_rules! buffered_harness {
+    ($name:ident, $role:expr) => {
+        #[kani::proof]
+        #[kani::unwind(3)]
+        pub fn $name() {
+            rule_table_buffered($role);
+        }
+    };
+}
+buffered_harness!(p_rule_table_buffered_biremote, Role::BiRemote);
+buffered_harness!(p_rule_table_buffered_bilocal, Role::BiLocal);
+buffered_harness!(p_rule_table_buffered_unicontrol, Role::UniRemoteControl);
+buffered_harness!(p_rule_table_buffered_session, Role::Session);
+
 #[kani::proof]
 #[kani::unwind(3)]
 pub fn p_rule_table_biremote() {
